@@ -3,6 +3,10 @@
 Free variables: per step k the scheduled thread/event `tid_k` and the outcome index `out_k`, plus the per-job
 environment constants (hasto_j: job has a timeout, pfail_j: Popen raises, igterm_j: process ignores SIGTERM).
 tid values: 0..T-1 threads, T+j "process j exits by itself", T+J stutter (only as a suffix of the schedule).
+z3 builds the unrolling; `Enc.solve` lets z3 try briefly in-process and hands the query to yices-smt2 (measured here:
+z3 4.12.6 `unknown` after 120 s where yices answers `unsat` in 1-4 s).  Two partial-order reductions were tried and
+dropped (both made the SAT problem slower).  A solver answer becomes a witness through `Enc.witness`, a concrete
+interpreter of the same CFG that re-checks every guard.
 """
 
 from __future__ import annotations
@@ -19,10 +23,8 @@ from lib.procbmc import END, IDLE, P_RUN, Model, sort_of
 
 
 class Enc:
-    def __init__(self, model: Model, steps: int, por: bool = False):
-        self.m, self.N, self.por = model, steps, por
-        self.res_index: dict[str, int] = {}
-        self.masks = []
+    def __init__(self, model: Model, steps: int):
+        self.m, self.N = model, steps
         self.T, self.J = len(model.threads), model.J
         self.STUTTER = self.T + self.J
         self.consts = {c: z3.Bool(c) for c in model.consts}
@@ -39,8 +41,6 @@ class Enc:
         self.states.append(s0)
         for k in range(steps):
             self._step(k)
-        if por:
-            self._por()
 
     # ---- expressions ------------------------------------------------------------------------------------------
     def V(self, S, name):
@@ -88,66 +88,6 @@ class Enc:
         if t == "bool":
             return self.C(S, rhs[1])
         raise ValueError(rhs)
-
-    # ---- partial-order reduction -------------------------------------------------------------------------------
-    def _vars_of(self, e, acc):
-        if isinstance(e, tuple):
-            if e and e[0] in ("b", "nb", "eq", "ne", "var", "inc"):
-                acc.add(e[1])
-            elif e and e[0] in ("eqv", "succ_eq", "succ_ne"):
-                acc.add(e[1]); acc.add(e[2])
-            else:
-                for x in e[1:]:
-                    self._vars_of(x, acc)
-        elif isinstance(e, list):
-            for x in e:
-                self._vars_of(x, acc)
-
-    def job_local(self, th, n):
-        """j if every variable the node reads or writes is a per-job variable of job j (or the thread's own pc /
-        crash flag or an environment constant), else None"""
-        vs = set()
-        for o in n.outs:
-            self._vars_of(o.cond, vs)
-            for var, rhs in o.effects:
-                vs.add(var)
-                self._vars_of(rhs, vs)
-        jobs = set()
-        for v in vs:
-            if v in (f"pc{th.idx}", f"crash{th.idx}"):
-                continue
-            base = v.rstrip("0123456789")
-            if base in ("proc", "pf", "exc", "tf", "early", "started", "done", "nset", "igterm", "hasto", "pfail"):
-                jobs.add(int(v[len(base):]))
-            else:
-                return None
-        return jobs.pop() if len(jobs) == 1 else None
-
-    def _por(self):
-        """Partial-order reduction: two adjacent steps of different threads that are both *job-local* (touch only the
-        per-job variables of one job and their own pc) to two different jobs commute; only the order with the smaller
-        thread id first is kept.  Every Mazurkiewicz trace keeps its lexicographically least linearisation (same
-        length, same end state), so reachability of end states within N steps is unchanged."""
-        J = self.J
-        table = []
-        for th in self.m.threads:
-            for n in th.nodes.values():
-                j = self.job_local(th, n)
-                if j is not None:
-                    table.append((th.idx, n.id, j))
-        self.por_nodes = len(table)
-        jl = []
-        for k in range(self.N):
-            S = self.states[k]
-            e = z3.BitVecVal(J, 3)
-            for j in range(J):
-                e = z3.If(self.tid[k] == self.T + j, z3.BitVecVal(j, 3), e)
-            for t, nid, j in table:
-                e = z3.If(z3.And(self.tid[k] == t, S[f"pc{t}"] == nid), z3.BitVecVal(j, 3), e)
-            jl.append(e)
-        for k in range(self.N - 1):
-            self.constraints.append(z3.Not(z3.And(z3.UGT(self.tid[k], self.tid[k + 1]), jl[k] != J, jl[k + 1] != J,
-                                                  jl[k] != jl[k + 1])))
 
     # ---- transition -------------------------------------------------------------------------------------------
     def _step(self, k):
@@ -209,26 +149,30 @@ class Enc:
         return list(self.tid) + list(self.out) + list(self.consts.values())
 
     def solve(self, extra, timeout_s=120, inproc_ms=1000):
-        """-> (status, z3 model or None, seconds, backend).  z3 in-process gets a short budget (it finds the shallow
-        satisfying schedules); yices-smt2 then decides the query (it refutes these unrollings 50-100x faster than z3
-        4.12); a `sat` answer of yices is turned back into a z3 model by pinning the schedule."""
+        """-> (status, values of the choice variables or None, seconds, backend).  z3 in-process gets a short budget
+        (it finds the shallow satisfying schedules); yices-smt2 then decides the query (it refutes these unrollings
+        50-100x faster than z3 4.12)."""
         from lib import portfolio
         t0 = time.time()
+        cc = self.choice_consts()
         s = z3.SolverFor("QF_BV")
-        s.set("timeout", int(inproc_ms))
         s.add(self.constraints)
         s.add(extra)
-        r = s.check()
-        if r != z3.unknown:
-            return str(r), (s.model() if r == z3.sat else None), time.time() - t0, "z3"
-        if not portfolio.YICES_BIN:
-            s.set("timeout", int(timeout_s * 1000))
+
+        def vals_of(m):
+            out = {}
+            for c in cc:
+                v = m.eval(c, model_completion=True)
+                out[str(c)] = bool(z3.is_true(v)) if z3.is_bool(c) else v.as_long()
+            return out
+        if inproc_ms > 0 or not portfolio.YICES_BIN:
+            s.set("timeout", int(inproc_ms if portfolio.YICES_BIN else timeout_s * 1000))
             r = s.check()
-            return str(r), (s.model() if r == z3.sat else None), time.time() - t0, "z3"
+            if r != z3.unknown or not portfolio.YICES_BIN:
+                return str(r), (vals_of(s.model()) if r == z3.sat else None), time.time() - t0, "z3"
         d = tempfile.mkdtemp(prefix="c17q")
         try:
             f = os.path.join(d, "q.smt2")
-            cc = self.choice_consts()
             with open(f, "w") as fh:
                 fh.write(_smt2(list(self.constraints) + list(extra), cc))
             try:
@@ -244,58 +188,98 @@ class Enc:
             return "unsat", None, time.time() - t0, "yices"
         if "(error" in out or first != "sat":
             return "unknown", None, time.time() - t0, "yices"
-        vals = portfolio._parse_get_value(out.split("\n", 1)[1] if "\n" in out else "")
-        s2 = z3.SolverFor("QF_BV")
-        s2.set("timeout", 60000)
-        s2.add(self.constraints)
-        s2.add(extra)
+        got = portfolio._parse_get_value(out.split("\n", 1)[1] if "\n" in out else "")
+        vals = {}
         for c in cc:
-            v = vals.get(c.sexpr(), vals.get(str(c)))
-            if v is None:
-                continue
-            s2.add(c == (bool(v) if z3.is_bool(c) else int(v)))
-        r = s2.check()
-        if r != z3.sat:   # the two solvers disagree on a pinned schedule: report as undecided, the caller flags it
-            return "disagree", None, time.time() - t0, "yices"
-        return "sat", s2.model(), time.time() - t0, "yices"
+            v = got.get(str(c))
+            vals[str(c)] = (bool(v) if z3.is_bool(c) else int(v)) if v is not None else (False if z3.is_bool(c) else 0)
+        return "sat", vals, time.time() - t0, "yices"
 
-    def witness(self, mdl):
-        """concrete schedule + per-step expected parked map + final model state"""
-        ev = lambda e: mdl.eval(e, model_completion=True)  # noqa: E731
-        consts = {c: bool(z3.is_true(ev(v))) for c, v in self.consts.items()}
+    # ---- concrete interpretation of one schedule (no solver): used to turn a solver answer into a witness; it
+    # re-checks every transition guard, so an answer that does not satisfy the model raises ValueError
+    def _c(self, S, e):
+        t = e[0]
+        if t == "T":
+            return True
+        if t == "b":
+            return bool(S[e[1]])
+        if t == "nb":
+            return not S[e[1]]
+        if t == "eq":
+            return S[e[1]] == e[2]
+        if t == "ne":
+            return S[e[1]] != e[2]
+        if t == "eqv":
+            return S[e[1]] == S[e[2]]
+        if t == "succ_eq":
+            return (S[e[1]] + 1) % (1 << sort_of(e[1])) == S[e[2]]
+        if t == "succ_ne":
+            return (S[e[1]] + 1) % (1 << sort_of(e[1])) != S[e[2]]
+        if t == "and":
+            return all(self._c(S, x) for x in e[1])
+        if t == "or":
+            return any(self._c(S, x) for x in e[1])
+        if t == "not":
+            return not self._c(S, e[1])
+        raise ValueError(e)
+
+    def _r(self, S, var, rhs):
+        so = sort_of(var)
+        t = rhs[0]
+        if t == "const":
+            return bool(rhs[1]) if so == "b" else int(rhs[1])
+        if t == "var":
+            return S[rhs[1]]
+        if t == "inc":
+            return min(S[rhs[1]] + 1, (1 << so) - 1)
+        if t == "ite":
+            return self._r(S, var, rhs[2]) if self._c(S, rhs[1]) else self._r(S, var, rhs[3])
+        if t == "bool":
+            return self._c(S, rhs[1])
+        raise ValueError(rhs)
+
+    def witness(self, vals):
+        """concrete schedule + per-step expected parked map + final model state, from the choice-variable values"""
+        consts = {c: bool(vals[c]) for c in self.consts}
+        S = {v: (bool(i) if sort_of(v) == "b" else int(i)) for v, i in self.m.vars.items()}
+        for th in self.m.threads:
+            S[f"pc{th.idx}"] = th.init_pc
+        S.update(consts)
+
+        def parked():
+            return {th.name: th.nodes[S[f"pc{th.idx}"]].line for th in self.m.threads
+                    if S[f"pc{th.idx}"] not in (END, IDLE)}
+        init = parked()
         steps = []
-
-        def val(S, name):
-            x = ev(S[name])
-            return bool(z3.is_true(x)) if z3.is_bool(x) else x.as_long()
-
-        def parked(S):
-            out = {}
-            for th in self.m.threads:
-                pc = val(S, f"pc{th.idx}")
-                if pc not in (END, IDLE):
-                    out[th.name] = th.nodes[pc].line
-            return out
         for k in range(self.N):
-            tid = ev(self.tid[k]).as_long()
-            S = self.states[k]
+            tid = vals[f"tid_{k}"]
             if tid == self.STUTTER:
                 break
+            if tid > self.STUTTER:
+                raise ValueError(f"step {k}: thread id {tid} out of range")
             if tid >= self.T:
-                steps.append({"kind": "env", "job": tid - self.T, "parked_after": parked(self.states[k + 1])})
+                j = tid - self.T
+                if S[f"proc{j}"] != P_RUN:
+                    raise ValueError(f"step {k}: exit of a process that is not running")
+                S[f"proc{j}"] = 2
+                steps.append({"kind": "env", "job": j, "parked_after": parked()})
                 continue
             th = self.m.threads[tid]
-            pc = val(S, f"pc{tid}")
-            n = th.nodes[pc]
-            o = n.outs[ev(self.out[k]).as_long()]
+            n = th.nodes.get(S[f"pc{tid}"])
+            oi = vals[f"out_{k}"]
+            if n is None or oi >= len(n.outs) or not self._c(S, n.outs[oi].cond):
+                raise ValueError(f"step {k}: the solver's schedule does not satisfy the transition relation")
+            o = n.outs[oi]
+            new = {var: self._r(S, var, rhs) for var, rhs in o.effects}
+            S.update(new)
+            S[f"pc{tid}"] = o.target
             st = {"kind": "thread", "thread": th.name, "line": n.line, "tag": n.tag, "label": o.label,
-                  "parked_after": parked(self.states[k + 1])}
+                  "parked_after": parked()}
             if "sweep" in n.extra:
                 st["sweep"] = n.extra["sweep"]
             steps.append(st)
-        SN = self.states[len(steps)] if len(steps) < self.N else self.states[self.N]
-        final = {v: val(SN, v) for v in SN}
-        return {"consts": consts, "steps": steps, "parked_init": parked(self.states[0]), "final": final}
+        final = {v: S[v] for v in S if v not in consts}
+        return {"consts": consts, "steps": steps, "parked_init": init, "final": final}
 
 
 def _smt2(assertions, consts) -> str:
@@ -312,7 +296,7 @@ def _smt2(assertions, consts) -> str:
 def replay_job(model: Model, wit: dict, src_dir: str, probe: bool = True) -> dict:
     return {"src": src_dir, "scenario": model.sc.to_json(), "consts": wit["consts"],
             "gate_lines": model.gate_lines(), "stmt_of": {str(k): v for k, v in model.src.stmt_of.items()},
-            "steps": wit["steps"], "parked_init": wit["parked_init"], "probe": probe}
+            "steps": wit["steps"], "parked_init": wit["parked_init"], "probe": probe, "final": wit["final"]}
 
 
 def run_replay(job: dict, timeout=60) -> dict:
@@ -335,19 +319,5 @@ def run_replay(job: dict, timeout=60) -> dict:
 
 def compare_state(model: Model, final: dict, obs: dict) -> list[str]:
     """differences between the model's predicted end state and the state observed on the real classes"""
-    diffs = []
-
-    def chk(name, a, b):
-        if a != b:
-            diffs.append(f"{name}: model {a} real {b}")
-    chk("flag", bool(final["flag"]), obs["flag"])
-    chk("lock held", final["lock"] != 63, obs["locked"])
-    chk("sdret", bool(final["sdret"]), obs["sdret"])
-    reg = sorted((final[f"regpos{j}"], j) for j in range(model.J) if final[f"regpos{j}"] != 7)
-    chk("registry", [j for _, j in reg], obs["registry"])
-    for j in range(model.J):
-        for v in ("proc", "pf", "exc", "done", "nset", "started", "acc", "rej", "res"):
-            a = final[f"{v}{j}"]
-            b = obs[f"{v}{j}"]
-            chk(f"{v}{j}", int(a) if not isinstance(a, bool) else a, int(b) if not isinstance(b, bool) else b)
-    return diffs
+    from lib.procreplay import state_diffs
+    return state_diffs(model.J, final, obs)
